@@ -347,6 +347,18 @@ fn precedence_job(seed: u64, j: usize, tier: Tier) -> Outcome {
 
 /// `start_tracer` is the real function of app.rs (through a hook); the tracer it returns must be
 /// configured with the resolved values.
+/// The scheduling limits of the tracer the application starts for `trip example.com --first-ttl
+/// .. --max-ttl .. --max-inflight ..` (through the application's own `start_tracer`).
+pub fn started_tracer_limits(first: u8, max: u8, inflight: u8) -> Result<(u8, u8, u8), String> {
+    let argv: Vec<String> = ["trip", "example.com", "--first-ttl", &first.to_string(), "--max-ttl", &max.to_string(), "--max-inflight", &inflight.to_string()].iter().map(ToString::to_string).collect();
+    let case = Case { argv, toml: String::new(), states: BTreeMap::new() };
+    let cfg = build(&case)?.map_err(|e| format!("rejected: {e}"))?;
+    let target = std::net::IpAddr::V4(std::net::Ipv4Addr::new(10, 200, 0, 1));
+    let info = trippy_tui::verif::start_tracer(&cfg, "example.com", target, 0, 4242).map_err(|e| format!("start_tracer: {e}"))?;
+    let t = &info.data;
+    Ok((t.first_ttl().0, t.max_ttl().0, t.max_inflight().0))
+}
+
 fn check_tracer_start(cfg: &TrippyConfig, o: &mut Outcome, replay: &serde_json::Value) {
     use std::net::{IpAddr, Ipv4Addr};
     let target = IpAddr::V4(Ipv4Addr::new(10, 200, 0, 1));
